@@ -423,7 +423,8 @@ TRUTH = {
     "lengths is None": {"nested": True, "flat1": True, "given_rect": False, "given_ragged": False, "empty": True},
     "_is_iterable(array[0])": {"nested": True, "flat1": False},
     "len(lengths) > 0": {"given_rect": True, "given_ragged": True},
-    "np.all(lengths == lengths[0])": {"given_rect": True, "given_ragged": False},
+    # np.asarray: a plain list of equal lengths must take the rectangular branch too (list == int is False)
+    "np.all(np.asarray(lengths) == lengths[0])": {"given_rect": True, "given_ragged": False},
 }
 DSRC = {"np.concatenate(array)": "DConcat",
         norm("np.array([np.array(j) for i in array for j in i], dtype='O')"): "DObjRows",
